@@ -455,8 +455,12 @@ func (g *graph) addBranch(startNode string, branch *GraphBranch, skipData bool) 
 		return fmt.Errorf("branch start node '%s' needs to be added to graph first", startNode)
 	}
 
-	if len(branch.endNodes) == 1 {
-		return fmt.Errorf("number of branches is 1")
+	if branch == nil {
+		return errors.New("branch is nil")
+	}
+
+	if len(branch.endNodes) < 2 {
+		return fmt.Errorf("number of branches is %d", len(branch.endNodes))
 	}
 
 	// the graph works on a copy: the position among this node's branches and the data-flow flag belong to this
